@@ -237,6 +237,9 @@ func runProperty(g *Gen, prop, tier, out string, cfg SolverCfg, t0 time.Time) in
 			if !kindMatches(pu, ob) {
 				continue
 			}
+			if only := onlyProp(ob.Name); only != "" && only != prop {
+				continue // a clause labelled [Cxx.name] is an obligation of property Cxx alone
+			}
 			seen[baselineName(ob.FullName())] = true
 			solverMs += ob.Ms
 			if ob.Cover {
@@ -524,4 +527,14 @@ func unitSep(full string) int {
 		return d + i
 	}
 	return len(full)
+}
+
+var onlyPropRe = regexp.MustCompile(`[#.](C[0-9]{2,3})\.[A-Za-z]`)
+
+// onlyProp: a clause label of the form Cxx.name ties the obligation to that property only.
+func onlyProp(name string) string {
+	if m := onlyPropRe.FindStringSubmatch(name); m != nil {
+		return m[1]
+	}
+	return ""
 }
